@@ -4,7 +4,8 @@ use super::common::*;
 use crate::ctx::*;
 use crate::model::{components, same_partition};
 use crate::rng::Rng;
-use open_hypergraphs::array::vec::{connected_components, to_dense, VecArray, VecKind};
+use crate::compat::to_dense;
+use open_hypergraphs::array::vec::{connected_components, VecArray, VecKind};
 use serde_json::json;
 
 crate::array_contract_checks!(vecchk, VecKind, VecArray);
@@ -49,7 +50,7 @@ impl Monitor for C07 {
         EXHAUSTIVE + 6 + DEEP
     }
     fn floors(&self) -> Vec<(&'static str, u64)> {
-        vec![
+        let mut v = vec![
             ("class:empty_array", 1),
             ("class:all_equal_keys", 5),
             ("class:exhaustive_small_array", EXHAUSTIVE),
@@ -76,11 +77,15 @@ impl Monitor for C07 {
             ("api:segmented_sum", 100),
             ("api:sort_by", 100),
             ("api:connected_components", 200),
-            ("api:to_dense", 100),
+
             ("api:sparse_bincount", 341),
             ("api:argsort", 341),
             ("api:to_range", 341),
-        ]
+        ];
+        if crate::compat::HAS_TO_DENSE {
+            v.push(("api:to_dense", 100));
+        }
+        v
     }
     fn run_case(&self, idx: u64, r: &mut Rng, ctx: &mut Ctx) {
         if let Some(v) = small_array(idx) {
@@ -168,7 +173,7 @@ impl Monitor for C07 {
             }
             let sparse: Vec<usize> = { let m = if wide { r.small(300) } else { r.small(8) }; r.vec_below(m, if wide { 1000 } else { 20 }) };
             let res = guard(|| to_dense(&sparse));
-            if let Some((dense, kk)) = must_return(ctx, "to_dense", "any", res, || json!({"sparse": sparse})) {
+            if let Some(Some((dense, kk))) = must_return(ctx, "to_dense", "any", res, || json!({"sparse": sparse})) {
                 let mut d = sparse.clone();
                 d.sort();
                 d.dedup();
